@@ -188,7 +188,8 @@ func (c *Conn) AsyncRead() {
 					_ = c.closeWithError(err)
 					return
 				}
-				if n < bufLen {
+				// a short read means drained only on a stream socket.
+				if n < bufLen && !c.IsUDP() {
 					break
 				}
 			}
@@ -233,7 +234,8 @@ func (c *Conn) AsyncRead() {
 					_ = c.closeWithError(err)
 					return
 				}
-				if n < bufLen {
+				// a short read means drained only on a stream socket.
+				if n < bufLen && !c.IsUDP() {
 					break
 				}
 			}
